@@ -1407,6 +1407,25 @@ class Interp:
                 return VBool(("or", ("and", a.f, f_not(b.f)), ("and", f_not(a.f), b.f)))
         if isinstance(a, VInt) and isinstance(b, VInt):
             ty = dest_ty if isinstance(dest_ty, str) else aty
+            if op in ("Shl", "ShlUnchecked") and self.opts.get("bitor_oblig", True) and b.lin.is_const() and \
+                    isinstance(ty, str) and ty in INT_TYPES and INT_TYPES[ty][0] == 0:
+                # a left shift of an unsigned value must not push set bits out of the type (a silent truncation),
+                # unless the result is masked / truncated on purpose right away (`(x << 4) & 0xf0`)
+                k = b.lin.c
+                hi_t = INT_TYPES[ty][1]
+                fits = False
+                alo, ahi = static_bounds(a.lin)
+                if alo is not None and alo >= 0 and ahi is not None and (ahi << k) <= hi_t:
+                    fits = True
+                elif st.entails(a.lin) and st.entails(Lin.const(hi_t) - a.lin.scale(1 << k)):
+                    fits = True
+                if not fits:
+                    fits = self.shl_is_masked(fr, k, ty)
+                self.oblige(st, "shl", "left shift keeps all set bits", fits, self.cur_site, self.cur_sp,
+                            "" if fits else "operand %s << %d may exceed %s; facts: %s" % (
+                                show_lin(a.lin), k, ty, self.show_facts(st, a.lin)),
+                            trivial=(alo is not None and ahi is not None and alo >= 0 and (ahi << k) <= hi_t),
+                            expn=self.cur_expn)
             if op == "BitOr" and self.opts.get("bitor_oblig", True):
                 ma, mb = mask_of_lin(a.lin), mask_of_lin(b.lin)
                 disjoint = ma is not None and mb is not None and (ma & mb) == 0
@@ -1438,6 +1457,32 @@ class Interp:
         if op == "Offset" and isinstance(a, VPtr) and isinstance(b, VInt):
             return self.ptr_add(st, a, b.lin)
         return self.materialize(st, dest_ty, ("bin", fresh_id()))
+
+    def shl_is_masked(self, fr, k, ty):
+        """is the result of the shift at the current site consumed only by `& CONST` (deliberate truncation)?"""
+        dp = getattr(self, "_cur_dest", None)
+        if dp is None or dp.get("p"):
+            return False
+        dl = dp["l"]
+        body = fr.body
+        uses = 0
+        masked = 0
+        for blk in body["blocks"]:
+            for s_ in blk["stmts"]:
+                if s_["s"] != "assign":
+                    continue
+                rv = s_["rvalue"]
+                ops = [rv.get("a"), rv.get("b"), rv.get("op")] + list(rv.get("ops", []))
+                for o in ops:
+                    if isinstance(o, dict):
+                        pl = o.get("c") or o.get("m")
+                        if pl is not None and pl.get("l") == dl and not pl.get("p"):
+                            uses += 1
+                            if rv["rv"] == "bin" and rv["op"] == "BitAnd":
+                                other = rv["b"] if o is rv["a"] else rv["a"]
+                                if isinstance(other, dict) and "k" in other:
+                                    masked += 1
+        return uses > 0 and uses == masked
 
     def refined_mask(self, st, lin, m0):
         from .lin import sup_of
